@@ -57,6 +57,7 @@ ApplySO(st, op) ==
          IF i < 0 \/ i > n THEN Bad
          ELSE IF i = n THEN Good([schema |-> FALSE, el |-> Append(st.el, op.v)], NORET)
          ELSE Good([schema |-> FALSE, el |-> [st.el EXCEPT ![i + 1] = op.v]], NORET)
+    [] op.o \in {"setbad", "setbadobj", "appendbad"} -> Bad      \* a value the component type cannot take
     [] op.o = "append" -> Good([schema |-> FALSE, el |-> Append(st.el, op.v)], NORET)
     [] op.o = "extend" -> Good([schema |-> FALSE, el |-> st.el \o <<op.v, op.v + 1>>], NORET)
     [] op.o = "clear" -> Good([schema |-> FALSE, el |-> <<>>], NORET)
@@ -89,6 +90,7 @@ ChoiceAtMostOne(st) == st.cur \in 0..NAlt
 ApplyCH(st, op) ==
   CASE op.o \in {"set", "setitem", "setbyname", "setbytype"} ->
          IF op.i < 0 \/ op.i >= NAlt THEN Bad ELSE Good([cur |-> op.i + 1, val |-> op.v], NORET)
+    [] op.o \in {"setbad", "setbadobj"} -> Bad
     [] op.o = "clear" -> Good(CHInit, NORET)
     [] op.o = "reset" -> Good(CHInit, NORET)
     \* reading an alternative never selects it
@@ -115,6 +117,7 @@ ApplySQ(st, op) ==
   CASE op.o \in {"set", "setitem", "setbyname"} ->
          IF op.i < 0 \/ op.i >= NComp THEN Bad
          ELSE Good([schema |-> FALSE, f |-> [st.f EXCEPT ![op.i + 1] = op.v]], NORET)
+    [] op.o \in {"setbad", "setbadobj"} -> Bad
     [] op.o = "clear" -> Good([schema |-> FALSE, f |-> <<NONE, NONE, NONE>>], NORET)
     [] op.o = "reset" -> Good(SQInit, NORET)
     [] op.o \in {"getitem", "getbyname"} ->   \* s[i] / s[name]: an unset component is instantiated (documented):
